@@ -575,10 +575,33 @@ Proof.
     destruct (w_mod _ _ W c x Hx) as [A|[]]. congruence.
 Qed.
 
+(* ---------- escape_ID ---------- *)
+Lemma escape_list_Inv : forall f c l s, Inv s -> Inv (fst (escape_list f c l s)).
+Proof.
+  intros f c l. induction l as [|x l IH]; intros s W; cbn [escape_list]; [exact W|].
+  pose proof (set_id_Inv c x (f (oid s c x)) s W) as W1.
+  destruct (set_id c x (f (oid s c x)) s) as [s1 r]. cbn [fst] in W1. destruct r; try exact W1. apply IH. exact W1.
+Qed.
+Lemma repair_rel_core : forall s, core_eq s (repair_rel s).
+Proof. intros. constructor; reflexivity. Qed.
+Lemma escape_ids_Inv : forall tbl s, Inv s -> Inv (fst (escape_ids tbl s)).
+Proof.
+  intros tbl s W. unfold escape_ids. set (f := fun i => assoc i tbl i).
+  pose proof (escape_list_Inv f CM (lst s CM) s W) as W1.
+  destruct (escape_list f CM (lst s CM) s) as [s1 r1]. cbn [fst] in W1. destruct r1; try exact W1.
+  pose proof (escape_list_Inv f CR (lst s1 CR) s1 W1) as W2.
+  destruct (escape_list f CR (lst s1 CR) s1) as [s2 r2]. cbn [fst] in W2. destruct r2; try exact W2.
+  pose proof (escape_list_Inv f CG (lst s2 CG) s2 W2) as W3.
+  destruct (escape_list f CG (lst s2 CG) s2) as [s3 r3]. cbn [fst] in W3. destruct r3; try exact W3.
+  cbn [fst]. apply (WInv_core _ s3); [apply repair_rel_core|exact W3].
+Qed.
+Lemma set_bounds_Inv : forall r lb ub s, Inv s -> Inv (fst (set_bounds r lb ub s)).
+Proof. intros r lb ub s W. unfold set_bounds. destruct (ub <? lb); exact W. Qed.
+
 (* ---------- every operation, every history ---------- *)
 Theorem step_Inv : forall s o, Inv s -> op_ok s o -> Inv (fst (step vfix s o)).
 Proof.
-  intros s o W Hok. destruct o as [l|l|g l|g l|g k|r orph|m d|l rr|c x i]; cbn [step fst].
+  intros s o W Hok. destruct o as [l|l|g l|g l|g k|r orph|m d|l rr|c x i|tbl|r lb ub]; cbn [step fst].
   - apply add_groups_Inv; assumption.
   - apply remove_groups_Inv; assumption.
   - apply add_members_Inv; assumption.
@@ -588,13 +611,17 @@ Proof.
   - apply (clean_WInv _ s); [apply remove_met_clean|exact W].
   - apply (clean_WInv _ s); [apply remove_genes_clean|exact W].
   - apply set_id_Inv; assumption.
+  - apply escape_ids_Inv; assumption.
+  - apply set_bounds_Inv; assumption.
 Qed.
 
-Lemma init_Inv : forall rs ms gs sto0 mb0 rg0 gb0, NoDup rs -> NoDup ms -> NoDup gs ->
-  Inv (init rs ms gs sto0 mb0 rg0 gb0).
+Lemma init_Inv : forall rs ms gs idr idm idg idp sto0 mb0 rg0 gb0,
+  NoDup (map (fun x => assoc x idr x) rs) -> NoDup (map (fun x => assoc x idm x) ms) ->
+  NoDup (map (fun x => assoc x idg x) gs) ->
+  Inv (init rs ms gs idr idm idg idp sto0 mb0 rg0 gb0).
 Proof.
-  intros rs ms gs sto0 mb0 rg0 gb0 Hr Hm Hg. constructor.
-  - intros c. unfold ids, init. cbn [lst oid]. rewrite map_id. destruct c; try assumption. constructor.
+  intros rs ms gs idr idm idg idp sto0 mb0 rg0 gb0 Hr Hm Hg. constructor.
+  - intros c. unfold ids, init. cbn [lst oid]. destruct c; try assumption. constructor.
   - intros c x Hx. left. unfold init in *. cbn [lst omod] in *. destruct c; try (apply memz_In; exact Hx). contradiction.
   - intros g y Hg'. unfold init in Hg'. cbn [lst] in Hg'. contradiction.
 Qed.
